@@ -406,4 +406,40 @@ theorem stopFilter_text_iff (c : StopCfg) (ts : List Token) (pos : Option Nat) (
             · simp [h1] at hr
           · exact ⟨y, hy, hw, hk'⟩
 
+/-! ## `str.find` and `DelimitedAttributeFilter` -/
+
+theorem findSub_le (sub s : Str) (p : Nat) (h : findSub sub s = some p) : p ≤ s.length := by
+  induction s generalizing p with
+  | nil =>
+    simp only [findSub] at h
+    split at h <;> simp_all
+  | cons c rest ih =>
+    simp only [findSub] at h
+    split at h
+    · simp at h; omega
+    · cases hr : findSub sub rest with
+      | none => simp [hr] at h
+      | some q =>
+        simp [hr] at h
+        have := ih q hr
+        simp only [List.length_cons]; omega
+
+/-- what `find` returns is an occurrence: the delimiter is a prefix of the text from there on -/
+theorem findSub_occurs (sub s : Str) (p : Nat) (h : findSub sub s = some p) : sub.isPrefixOf (s.drop p) = true := by
+  induction s generalizing p with
+  | nil =>
+    simp only [findSub] at h
+    split at h <;> simp_all
+  | cons c rest ih =>
+    simp only [findSub] at h
+    split at h
+    · rename_i hpre
+      simp at h; subst h; simpa using hpre
+    · cases hr : findSub sub rest with
+      | none => simp [hr] at h
+      | some q =>
+        simp [hr] at h
+        subst h
+        simpa using ih q hr
+
 end WM.Analysis
